@@ -38,11 +38,11 @@ theorem ctxAux_cons (st : List TypeId) (tok : Tok) (r : List Tok) :
   cases tok <;> rfl
 
 theorem scan_iff (g : Nat → TypeId → Tok → Bool) : ∀ (l : List Tok) (i : Nat) (st : List TypeId),
-    scan g i st l = true ↔
+    scanToks g i st l = true ↔
       ∀ j, j < l.length → g (i + j) ((ctxAux st l).getD j 0) (l.getD j Tok.cl) = true
-  | [], i, st => by simp [scan]
+  | [], i, st => by simp [scanToks]
   | tok :: r, i, st => by
-    rw [scan, Bool.and_eq_true, scan_iff g r (i + 1) (push st tok), ctxAux_cons]
+    rw [scanToks, Bool.and_eq_true, scan_iff g r (i + 1) (push st tok), ctxAux_cons]
     constructor
     · rintro ⟨h0, hr⟩ j hj
       cases j with
@@ -177,7 +177,7 @@ theorem list_eq_of_getD (l l' : List Tok) (hlen : l'.length = l.length)
   have := h i h2
   simpa [List.getD_eq_getElem?_getD, List.getElem?_eq_getElem h1, List.getElem?_eq_getElem h2] using this
 
-theorem sameMarkup_trans (a b c : Node) (h1 : a.sameMarkup b = true) (h2 : b.sameMarkup c = true) :
+theorem sameMarkup_chain (a b c : Node) (h1 : a.sameMarkup b = true) (h2 : b.sameMarkup c = true) :
     a.sameMarkup c = true := by
   cases a <;> cases b <;> cases c <;> simp_all [Node.sameMarkup]
 
@@ -327,7 +327,7 @@ structure MarkStepKeeps (S : Schema) (doc doc' : Node) (f t : Nat) : Prop where
   norm : fnorm doc.kids = true → fnorm doc'.kids = true
   valid : TextStableP S → S.checkNode doc = true → S.checkNode doc' = true
 
-theorem removeMark_keeps (S : Schema) (doc doc' : Node) (f t : Nat) (m : Mark)
+theorem removeMark_keepsAll (S : Schema) (doc doc' : Node) (f t : Nat) (m : Mark)
     (h : S.apply (.removeMark f t m) doc = .ok doc') : MarkStepKeeps S doc doc' f t := by
   obtain ⟨old, hold, hr⟩ := removeMark_fromReplace S doc doc' f t m h
   obtain ⟨ty, a, mk, K, K', rfl, rfl, _⟩ := fromReplace_elem S doc doc' f t _ hr
@@ -337,7 +337,7 @@ theorem removeMark_keeps (S : Schema) (doc doc' : Node) (f t : Nat) (m : Mark)
   · exact replace_valid S _ _ f t _ hd
       (removeMark_payload S hts m _ _ _ (slice_openValid S _ f t old hd hold)) hr
 
-theorem addMark_keeps (S : Schema) (doc doc' : Node) (f t : Nat) (m : Mark)
+theorem addMark_keepsAll (S : Schema) (doc doc' : Node) (f t : Nat) (m : Mark)
     (h : S.apply (.addMark f t m) doc = .ok doc') : MarkStepKeeps S doc doc' f t := by
   obtain ⟨old, p, hold, hr⟩ := addMark_fromReplace S doc doc' f t m h
   obtain ⟨ty, a, mk, K, K', rfl, rfl, _⟩ := fromReplace_elem S doc doc' f t _ hr
@@ -357,8 +357,8 @@ theorem removeMark_restore_iff (S : Schema) (doc doc' doc'' : Node) (f t : Nat) 
     doc'' = doc ↔ removeMarkUndoable S doc f t m = true := by
   have p1 := removeMark_pt S doc doc' f t m h1
   have p2 := addMark_pt S doc' doc'' f t m h2
-  have k1 := removeMark_keeps S doc doc' f t m h1
-  have k2 := addMark_keeps S doc' doc'' f t m h2
+  have k1 := removeMark_keepsAll S doc doc' f t m h1
+  have k2 := addMark_keepsAll S doc' doc'' f t m h2
   have htok : ∀ i, i < (ftoks doc.kids).length →
       tokD doc'' i = addG S m f t i (ctxD S doc i) (rmG S m f t i (ctxD S doc i) (tokD doc i)) := by
     intro i hi
@@ -371,7 +371,7 @@ theorem removeMark_restore_iff (S : Schema) (doc doc' doc'' : Node) (f t : Nat) 
     exact (add_rm_tok S m f t i _ _).mp this.symm h1' h2'
   · intro hg
     obtain ⟨ty, a, mk, K, K', rfl, _⟩ := k1.elem
-    refine node_eq_of_toks doc'' ty a mk K (sameMarkup_trans _ _ _ p2.same p1.same)
+    refine node_eq_of_toks doc'' ty a mk K (sameMarkup_chain _ _ _ p2.same p1.same)
       (k2.norm (k1.norm hn)) hn (by rw [p2.len, p1.len]; rfl) (fun i hi => ?_)
     rw [htok i hi]
     exact (add_rm_tok S m f t i _ _).mpr (hg i hi)
@@ -383,8 +383,8 @@ theorem addMark_restore_iff (S : Schema) (doc doc' doc'' : Node) (f t : Nat) (m 
     doc'' = doc ↔ addMarkUndoable S doc f t m = true := by
   have p1 := addMark_pt S doc doc' f t m h1
   have p2 := removeMark_pt S doc' doc'' f t m h2
-  have k1 := addMark_keeps S doc doc' f t m h1
-  have k2 := removeMark_keeps S doc' doc'' f t m h2
+  have k1 := addMark_keepsAll S doc doc' f t m h1
+  have k2 := removeMark_keepsAll S doc' doc'' f t m h2
   have htok : ∀ i, i < (ftoks doc.kids).length →
       tokD doc'' i = rmG S m f t i (ctxD S doc i) (addG S m f t i (ctxD S doc i) (tokD doc i)) := by
     intro i hi
@@ -397,7 +397,7 @@ theorem addMark_restore_iff (S : Schema) (doc doc' doc'' : Node) (f t : Nat) (m 
     exact (rm_add_tok S m f t i _ _).mp this.symm h1' h2'
   · intro hg
     obtain ⟨ty, a, mk, K, K', rfl, _⟩ := k1.elem
-    refine node_eq_of_toks doc'' ty a mk K (sameMarkup_trans _ _ _ p2.same p1.same)
+    refine node_eq_of_toks doc'' ty a mk K (sameMarkup_chain _ _ _ p2.same p1.same)
       (k2.norm (k1.norm hn)) hn (by rw [p2.len, p1.len]; rfl) (fun i hi => ?_)
     rw [htok i hi]
     exact (rm_add_tok S m f t i _ _).mpr (hg i hi)
@@ -409,7 +409,7 @@ theorem removeMark_inverse_applies (S : Schema) (hts : TextLoop S) (doc doc' : N
     (h1 : S.apply (.removeMark f t m) doc = .ok doc')
     (ha : alignedAt doc'.kids f = true ∧ alignedAt doc'.kids t = true) :
     ∃ doc'', S.apply (.addMark f t m) doc' = .ok doc'' := by
-  have k1 := removeMark_keeps S doc doc' f t m h1
+  have k1 := removeMark_keepsAll S doc doc' f t m h1
   have p1 := removeMark_pt S doc doc' f t m h1
   have hv' := k1.valid hts.stable hd
   have hn' := k1.norm hn
@@ -423,7 +423,7 @@ theorem addMark_inverse_applies (S : Schema) (hts : TextLoop S) (doc doc' : Node
     (h1 : S.apply (.addMark f t m) doc = .ok doc')
     (ha : alignedAt doc'.kids f = true ∧ alignedAt doc'.kids t = true) :
     ∃ doc'', S.apply (.removeMark f t m) doc' = .ok doc'' := by
-  have k1 := addMark_keeps S doc doc' f t m h1
+  have k1 := addMark_keepsAll S doc doc' f t m h1
   have p1 := addMark_pt S doc doc' f t m h1
   have hv' := k1.valid hts.stable hd
   have hn' := k1.norm hn
